@@ -5,6 +5,7 @@
 package jsonp
 
 import (
+	"strings"
 	"bytes"
 	stdjson "encoding/json"
 	"flag"
@@ -211,6 +212,20 @@ func Replay(args []string) {
 			sum.Nontrivial++
 		}
 		w.End(true)
+	}
+	// deep documents (the grammar's derivations are short): containers nested around 64 levels and beyond, objects outside
+	// arrays and the other way round, the outer container continuing after the deep part
+	for _, n := range []int{31, 32, 33, 63, 64, 65, 66, 100, 257} {
+		rep := strings.Repeat
+		for _, d := range []string{
+			rep(`{"a":`, n) + `1` + rep(`}`, n),
+			`{"k":` + rep(`[`, n) + `1` + rep(`]`, n) + `,"l":2}`,
+			rep(`[`, n) + `{"a":1,"b":[]}` + rep(`]`, n),
+			`[` + rep(`{"a":[`, n) + rep(`]}`, n) + `,{"z":null}]`,
+			`{"k":` + rep(`[`, n) + `1` + rep(`]`, n-1) + `}`, // one bracket short: the object's '}' closes an array
+		} {
+			one([]byte(d), tr.E{"deep": n})
+		}
 	}
 	err := tr.ReadCases(*cases, func(line int, raw []byte) {
 		var c struct {
